@@ -544,6 +544,20 @@ func Commands(c *Ctx) []*Command {
 func FuncValue(v ssa.Value) *ssa.Function {
 	switch x := Strip(v).(type) {
 	case *ssa.Function:
+		// a method expression (T.m) is a synthetic thunk around the method
+		if strings.HasSuffix(x.Name(), "$thunk") && x.Synthetic != "" {
+			var target *ssa.Function
+			EachInstr(x, func(ins ssa.Instruction) {
+				if call, ok := ins.(ssa.CallInstruction); ok {
+					if c := call.Common().StaticCallee(); c != nil {
+						target = c
+					}
+				}
+			})
+			if target != nil {
+				return target
+			}
+		}
 		return x
 	case *ssa.MakeClosure:
 		fn := x.Fn.(*ssa.Function)
